@@ -104,6 +104,11 @@ def validateAndAcquire (pwOK : Bytes → Bytes → Bool) (c : Cfg) (m : Meta) (s
     | some v => (v, sessions)
     | none => acquire c sessions
 
+/-- The argument vector of the process `NewSession` / `NewPTYSession` build after admission:
+    `exec.CommandContext(ctx, meta.Command, meta.Args...)` — the request's own command and arguments,
+    unchanged. -/
+def processArgv (m : Meta) : List Bytes := m.command :: m.args
+
 /-! ### The session counter under concurrency
 
 Threads interleave at the granularity of the two critical sections.  `held` is the ghost count of
